@@ -233,7 +233,8 @@ def _r1(ctx, m):
         ctx.check(okv, "R1", "override:statement", w, "the statement assigns the user's expression to k[idx] of that reaction",
                   expected="k[{idx}] = {value};", found=lw.text)
         # no early exit from either loop
-        brk = [x for x in fl.facts if x.kind in ("break", "continue", "return") and any(l.id in (L1, L2) for l in x.loops)]
+        # `continue` only skips the rest of one iteration (a guard clause); what leaves a loop early is break / return
+        brk = [x for x in fl.facts if x.kind in ("break", "return") and any(l.id in (L1, L2) for l in x.loops)]
         ctx.check(not brk, "R1", "override:no-early-exit", (FILE, brk[0].line if brk else f.line),
                   "neither loop is left early: reactions sharing an index are all overridden",
                   found="; ".join(f"{x.kind}@{x.line}" for x in brk))
